@@ -130,6 +130,13 @@ func (vfs *MemFS) searchNode(path string, slMode slMode) (
 
 		case *symlinkNode:
 			// Symlinks mode is always 0o777, no need to check permissions.
+			if pi.IsLast() && slMode == slmLstat {
+				// the link itself is the result : it is not followed, so it does not count.
+				err = vfs.err.FileExists
+
+				return
+			}
+
 			slCount++
 			if slCount > slCountMax {
 				err = vfs.err.TooManySymlinks
@@ -138,11 +145,6 @@ func (vfs *MemFS) searchNode(path string, slMode slMode) (
 			}
 
 			if pi.IsLast() {
-				if slMode == slmLstat {
-					err = vfs.err.FileExists
-
-					return
-				}
 
 				// if the last part of the path is a symbolic link
 				// Stat should return the initial path of the symbolic link
